@@ -139,29 +139,33 @@ Fixpoint until_quote (q : Z) (cs : list Z) : option (list Z * list Z) :=
   | [] => None
   end.
 
+(* /\d{4}-\d{2}-\d{2}/ at the head of the text: year, month, day as written, and what follows *)
+Definition lex_date (cs : list Z) : option (N * N * N * list Z) :=
+  match cs with
+  | a :: b :: c :: d :: h1 :: e :: f :: h2 :: g :: h :: r =>
+    if is_digit a && is_digit b && is_digit c && is_digit d && (h1 =? 45) && is_digit e && is_digit f
+       && (h2 =? 45) && is_digit g && is_digit h
+    then Some (digits_val [a; b; c; d], digits_val [e; f], digits_val [g; h], r) else None
+  | _ => None
+  end.
+
+(* decimal /([0-9]+\.[0-9]*|[0-9]*\.[0-9]+)/ with an integer part, else integer /\d+/ *)
+Definition lex_decint (cs : list Z) : option (token * list Z) :=
+  let (ds, r) := span is_digit cs in
+  match r with
+  | c :: r1 =>
+    if c =? 46 then let (fs, r2) := span is_digit r1 in
+                    Some (TDec true (digits_val (ds ++ fs)) (List.length fs), r2)
+    else Some (TInt (digits_val ds), r)
+  | [] => Some (TInt (digits_val ds), r)
+  end.
+
 Definition lex_number (cs : list Z) : option (token * list Z) :=
-  let date :=
-    match cs with
-    | a :: b :: c :: d :: h1 :: e :: f :: h2 :: g :: h :: r =>
-      if is_digit a && is_digit b && is_digit c && is_digit d && (h1 =? 45) && is_digit e && is_digit f
-         && (h2 =? 45) && is_digit g && is_digit h
-      then Some (digits_val [a; b; c; d], digits_val [e; f], digits_val [g; h], r) else None
-    | _ => None
-    end in
-  let number :=
-    let (ds, r) := span is_digit cs in
-    match r with
-    | c :: r1 =>
-      if c =? 46 then let (fs, r2) := span is_digit r1 in
-                      Some (TDec true (digits_val (ds ++ fs)) (List.length fs), r2)
-      else Some (TInt (digits_val ds), r)
-    | [] => Some (TInt (digits_val ds), r)
-    end in
-  match date with
+  match lex_date cs with
   | Some (y, m, d, r) =>
     (* the date rule fails on a non-calendar date (semantic action), the next alternatives are tried *)
-    if valid_date y m d then Some (TDate y m d, r) else number
-  | None => number
+    if valid_date y m d then Some (TDate y m d, r) else lex_decint cs
+  | None => lex_decint cs
   end.
 
 (* One token at [c :: r]; [c] is not skippable.  [sk] skips blanks/comments
